@@ -20,7 +20,9 @@ from hypothesis import strategies as st
 WS = [" ", "  ", "\n", "\t", " \n  ", "\r\n", "\r"]
 WS_NOCR = [" ", "  ", "\n", "\t", " \n  "]
 
-NAME_START = list("abcxyzABDIVP_") + ["é", "日", "न", "★"]
+NAME_START = list("abcxyzABDIVP_") + ["é", "日", "न", "★",
+                                         # digits, but not ASCII ones
+                                         "١", "２", "५"]
 # (any non-ASCII code point may continue a name: combining marks, vowel
 # signs and symbols included)
 NAME_REST = NAME_START + list("019-._") + ["\u0301", "\u093e", "\u0e34",
